@@ -148,10 +148,9 @@ func classifyRead(r c18Rec, writes []c18Rec) (class, why, expClass, gotClass str
 	case strings.HasPrefix(got, "FOREIGN"):
 		return "get-returned-other-parts-bytes", ctx, expClass, "foreign-bytes"
 	case got == "EMPTY":
-		if latestAllDel || !anyBefore {
-			return "get-empty-part-after-committed-delete", ctx, expClass, "empty-part"
-		}
-		return "get-empty-for-committed-nonempty-put", ctx, expClass, "empty-part"
+		// an empty part although no empty put is admissible here: a truncated
+		// (or freshly re-created, not yet written) part file
+		return "get-returned-bytes-nobody-wrote:mixed-or-truncated", ctx, expClass, "empty-part"
 	case got == regAbsent:
 		if frontierHasEmptyPut {
 			return "get-notfound-after-committed-empty-put", ctx, expClass, "absent"
